@@ -29,7 +29,7 @@ pub open spec fn headers_flat(s: Seq<ContinuousPageHeader>) -> Seq<nat> decrease
     if s.len() == 0 { Seq::<nat>::empty() } else { headers_flat(s.drop_last()) + seq![s.last().start_address@, s.last().size@, s.last().hash@] }
 }
 /// dynamic parameters in field order (see dynamic.rs; the conversion itself is assumed in this unit: A-iter)
-pub uninterp spec fn dynamic_params_seq(dp: &DynamicParams) -> Seq<nat>;
+pub use crate::swiftness_air::dynamic::dynamic_params_seq;
 pub open spec fn dyn_part(pi: &PublicInput) -> Seq<nat> {
     match pi.dynamic_params { Some(dp) => dynamic_params_seq(&dp), None => Seq::<nat>::empty() }
 }
